@@ -82,8 +82,14 @@ def _uniform_scn(rng, mname=None, big=0.0):
         s = abs(u) + np.sqrt(gam * p / rho)
         fs = [rho * s, rho * s * s, rho * s ** 3]; qs = [rho, rho * s, rho * s * s]
     disc = md.fvm(model, mesh, num, numflux=flux, bcL=bcL, bcR=bcR)
-    f = gen.fdata_prim(model, mesh, prim)
-    desc = {"model": mname, "params": mparams, "flux": flux, "recon": rname, "mesh": mdesc, "bcL": bcL, "bcR": bcR,
+    how = str(rng.choice(["arrays", "fdata_fromprim(scalars)", "fdata_fromprim(arrays)"]))
+    if how == "arrays":
+        f = gen.fdata_prim(model, mesh, prim)
+    elif how == "fdata_fromprim(scalars)":       # the way a user writes a uniform state: one python number per variable
+        f = disc.fdata_fromprim([float(x[0]) for x in prim])
+    else:
+        f = disc.fdata_fromprim([np.array(x) for x in prim])
+    desc = {"field_built_by": how, "model": mname, "params": mparams, "flux": flux, "recon": rname, "mesh": mdesc, "bcL": bcL, "bcR": bcR,
             "state": [float(x[0]) for x in prim], "ill_posed_boundary_pair": bool(locals().get("desc_illposed", False))}
     return model, mesh, disc, f, desc, fs, qs, cond, kind
 
@@ -269,9 +275,15 @@ def _scn2d(rng):
     disc = md.fvm2d(model, m, num, bclist=bcl, numflux=flux)
     n = m.ncell
     prim = [np.full(n, rho), np.vstack([np.full(n, V[0]), np.full(n, V[1])]), np.full(n, p)]
-    f = ffield.fdata(model, m, model.prim2cons(prim))
+    how = str(rng.choice(["arrays", "fdata_fromprim(scalars)", "fdata_fromprim(arrays)"]))
+    if how == "arrays":
+        f = ffield.fdata(model, m, model.prim2cons(prim))
+    elif how == "fdata_fromprim(scalars)":       # the way a user writes a uniform state: [rho, [u, v], p]
+        f = disc.fdata_fromprim([rho, [float(V[0]), float(V[1])], p])
+    else:
+        f = disc.fdata_fromprim(prim)
     s = mach * c + c
-    desc = {"model": "euler2d", "gamma": gam, "mesh": mdesc, "recon": rname, "flux": flux, "kind": kind, "state": [rho, V, p],
+    desc = {"field_built_by": how, "model": "euler2d", "gamma": gam, "mesh": mdesc, "recon": rname, "flux": flux, "kind": kind, "state": [rho, V, p],
             "bc": {t: {kk: vv for kk, vv in d.items() if kk != "prim"} for t, d in bcl.items()}}
     return m, model, disc, f, desc, [rho * s, rho * s * s, rho * s ** 3], [rho, rho * s, rho * s * s], cond
 
